@@ -188,6 +188,24 @@ def sum_(x, *a, **k):
     return _np.sum(x, *a, **k)
 
 
+def max_(x, *a, initial=None, **k):
+    """max over a symbolic array: a fresh symbol constrained to be >= every element and equal to one of them
+    (no forking over the element order)."""
+    if not has_sym(x):
+        if initial is not None:
+            return _np.max(x, *a, initial=initial, **k)
+        return _np.max(x, *a, **k)
+    flat = [lift(e) for e in _obj(x).reshape(-1)]
+    if initial is not None:
+        flat.append(lift(initial))
+    c = ctx()
+    kk = c.fresh_id("max")
+    mx = z3.Real(f"max{kk}")
+    c.assume(z3.And(*[mx >= e for e in flat]))
+    c.assume(z3.Or(*[mx == e for e in flat]))
+    return SymReal(mx)
+
+
 # ----------------------------------------------------------------------------- linalg
 
 
@@ -284,6 +302,8 @@ np_shim.sqrt = sqrt
 np_shim.square = square
 np_shim.mean = mean
 np_shim.sum = sum_
+np_shim.max = max_
+np_shim.amax = max_
 np_shim.linalg = linalg
 for _n in ("sin", "cos", "tan", "exp", "log", "arcsin", "arccos", "arctan", "sinh", "cosh", "tanh"):
     setattr(np_shim, _n, _ufunc1(_n))
